@@ -245,7 +245,7 @@ MT_ASSUME = [
     "bound = preemptions (switching away from a thread that could continue) + non-default program actions",
 ]
 CHECKS["C08"] = dict(
-    quick=[R("h_event_mt", "bound=2 transports=0-3 hacts=1", sched=True)],
+    quick=[R("h_event_mt", "bound=2 transports=0-3 hacts=1 p1=0,1,3,4,5 p2=0,1,3", sched=True)],
     thorough=[R("h_event_mt", "bound=3 transports=0-4 hacts=2", sched=True)],
     rule="4-5 wake-up transports (epoll one-shot kick under epoll-timerfd and epoll; raw event over eventfd and over a pipe under ppoll/poll) x "
          "6 programs for poster 1 x 4 for poster 2 (posts to E0/E1 in sequences of 1-2, feeding the owner's descriptor before/after a post) "
@@ -269,8 +269,8 @@ CHECKS["C14"] = dict(
            R("h_raw", "bound=2 scan_stderr=1", variant="tsan", sched=True),
            R("h_work", "bound=1 progs=0,1,3,4,5,8 puts=0,2,3 scan_stderr=1", variant="tsan", sched=True),
            R("h_thread", "bound=2 scan_stderr=1", variant="tsan", sched=True),
-           R("h_loops_mt", "bound=3 scan_stderr=1", variant="tsan", sched=True),
-           R("h_wait", "bound=1 steps=3 scan_stderr=1", variant="tsan", sched=True),
+           R("h_loops_mt", "bound=2 scan_stderr=1", variant="tsan", sched=True),
+           R("h_wait", "bound=1 steps=1 scan_stderr=1", variant="tsan", sched=True),
            R("h_signal", "bound=1 steps=2 scan_stderr=1", variant="tsan", sched=True)],
     thorough=[R("h_event_mt", "bound=2 transports=0-4 hacts=1 scan_stderr=1", variant="tsan", sched=True),
               R("h_raw", "bound=4 scan_stderr=1", variant="tsan", sched=True),
@@ -284,7 +284,7 @@ CHECKS["C14"] = dict(
     explanation="exhaustive schedule enumeration supplies the schedules in which conflicting accesses actually execute; on each one the "
                 "happens-before race detector decides, so one explored schedule covers its whole happens-before equivalence class",
     assumptions=C14_ASSUME,
-    deadline=dict(quick=200, thorough=1200),
+    deadline=dict(quick=300, thorough=1500),
 )
 
 CHECKS["C09"] = dict(
@@ -354,7 +354,7 @@ WAIT_ASSUME = MT_ASSUME + ["fork/wait4/kill of the library are served from a sim
                            "ECHILD when no child is left); the child side of register_spawn is not executed here (C19 does that)",
                            "SIGCHLD is raised by the receiving thread on itself; the receiving thread is a program choice"]
 CHECKS["C11"] = dict(
-    quick=[R("h_wait", "bound=1 steps=6", sched=True), R("h_wait", "bound=2 steps=2", sched=True)],
+    quick=[R("h_wait", "bound=1 steps=6", sched=True), R("h_wait", "bound=2 steps=1", sched=True)],
     thorough=[R("h_wait", "bound=2 steps=6", sched=True)],
     rule="7 child populations (spawned through the library by loop 0 / loop 1, plain children without interest, interest registered by pid) x "
          "first child exiting before fork() returns with its SIGCHLD going to loop 0 / loop 1 / a thread without a loop x driver programs of up "
